@@ -87,7 +87,7 @@ Inductive marker := MSkip (reason : str) | MXFail (reason : str) | MSlow | MPara
    literal, that string (extract_string_arg) *)
 Record decorator := { d_name : str; d_arg : option str }.
 
-Record fundecl := { f_name : str; f_decs : list decorator; f_params : list str }.
+Record fundecl := { f_name : str; f_decs : list decorator; f_params : list str; f_async : bool }.
 
 (* top-level declarations; only functions matter to the runner *)
 Inductive decl := DFun (f : fundecl) | DOther.
@@ -141,7 +141,8 @@ Fixpoint extract_markers (ds : list decorator) : list marker :=
 
 Definition is_fixture (f : fundecl) : bool := existsb (fun d => str_eqb (d_name d) s_fixture) (f_decs f).
 
-Record test := { t_path : list str; t_name : str; t_markers : list marker; t_fixtures : list str }.
+Record test := { t_path : list str; t_name : str; t_markers : list marker; t_fixtures : list str;
+                 t_params : list str; t_async : bool }.
 
 Definition file_name (p : list str) : str := last p [].
 
@@ -161,7 +162,8 @@ Fixpoint tests_of_decls (path : list str) (fx : list str) (ds : list decl) : lis
       if is_fixture f then tests_of_decls path fx r
       else if prefixb s_test_ (f_name f)
       then {| t_path := path; t_name := f_name f; t_markers := extract_markers (f_decs f);
-              t_fixtures := filter (fun p => mem_str p fx) (f_params f) |} :: tests_of_decls path fx r
+              t_fixtures := filter (fun p => mem_str p fx) (f_params f);
+              t_params := f_params f; t_async := f_async f |} :: tests_of_decls path fx r
       else tests_of_decls path fx r
   | DOther :: r => tests_of_decls path fx r
   end.
@@ -326,26 +328,32 @@ Definition not_skipped (t : test) : bool := match find_skip (t_markers t) with N
 (* what run_single_test returns, as a function of the generated harness.
    [compiles t]: read/lex/parse/typecheck/lowering/emission/project generation succeed and
    `cargo test` builds the project.  [body_ok t]: executing the body of t runs to completion
-   without a failed assertion or panic.  [runs_body]: the generated project contains a #[test]
+   without a failed assertion or panic.  [runs_body t]: the generated project contains a #[test]
    item (or a main) that executes the selected function.  With no such item `cargo test` runs
    zero tests and exits 0 whenever the project builds. *)
-Definition raw_of_harness (runs_body : bool) (compiles body_ok : test -> bool) (t : test) : raw :=
-  if compiles t && (negb runs_body || body_ok t) then RPass else RFail.
+Definition raw_of_harness (runs_body compiles body_ok : test -> bool) (t : test) : raw :=
+  if compiles t && (negb (runs_body t) || body_ok t) then RPass else RFail.
+
+(* the generated harness of the current tree (src/backend/ir/emit/decls.rs emit_function, test
+   mode): the selected function gets #[test] iff it has no parameters and is not async *)
+Definition harness_runs_body (t : test) : bool :=
+  match t_params t with [] => negb (t_async t) | _ :: _ => false end.
 
 (* did the body of t execute at all in the generated harness? *)
-Definition body_ran (runs_body : bool) (compiles : test -> bool) (t : test) : bool := runs_body && compiles t.
+Definition body_ran (runs_body compiles : test -> bool) (t : test) : bool := runs_body t && compiles t.
 
 (* the truthful raw verdict the property asks for *)
 Definition raw_truth (compiles body_ok : test -> bool) (t : test) : raw :=
   if compiles t && body_ok t then RPass else RFail.
 
-(* class of the known finding test-body-never-run: the harness does not execute bodies and the
-   test's project builds although its body would fail *)
-Definition Known_C16_body_never_run (runs_body : bool) (compiles body_ok : test -> bool) (t : test) : Prop :=
-  runs_body = false /\ compiles t = true /\ body_ok t = false.
+(* class of the known finding test-not-executed: the harness does not execute the body of t (for
+   [harness_runs_body]: t takes parameters — fixtures, @parametrize — or is async) and the test's
+   project builds although its body would fail *)
+Definition Known_C16_body_not_executed (runs_body compiles body_ok : test -> bool) (t : test) : Prop :=
+  runs_body t = false /\ compiles t = true /\ body_ok t = false.
 
-Definition known_body_never_runb (runs_body : bool) (compiles body_ok : test -> bool) (t : test) : bool :=
-  negb runs_body && compiles t && negb (body_ok t).
+Definition known_body_not_executedb (runs_body compiles body_ok : test -> bool) (t : test) : bool :=
+  negb (runs_body t) && compiles t && negb (body_ok t).
 
 (* ------------------------------------------------------------------------------------------ *)
 (* rendering for the correspondence run (everything to Z / lists of Z) *)
@@ -361,7 +369,7 @@ Definition render_marker (m : marker) : Z * str :=
 Definition render_state (s : state) :=
   (map (fun tr => (file_name (t_path (fst tr)), t_name (fst tr), render_result (snd tr))) (results s),
    [n_passed s; n_failed s; n_skipped s; n_xfailed s; n_xpassed s],
-   map (fun t => (file_name (t_path t), t_name t)) (executed s),
+   map (fun t => (file_name (t_path t), t_name t, harness_runs_body t)) (executed s),
    summary_parts s).
 
 (* (kind, exit, collected, state) with kind 0 = NoTestFiles, 1 = NoTestsCollected, 2 = Ran *)
@@ -390,6 +398,6 @@ Definition run_case (target : option node) (o : opts) (tbl : list (str * str * b
 Definition render_discovery (target : option node) :=
   map (fun e => (fst e,
                  match snd e with Unparsable => false | Parsed _ => true end,
-                 map (fun t => (t_name t, map render_marker (t_markers t), t_fixtures t)) (discover_decls (fst e) (snd e)),
+                 map (fun t => (t_name t, map render_marker (t_markers t), t_fixtures t, harness_runs_body t)) (discover_decls (fst e) (snd e)),
                  content_fixtures (snd e)))
       (discover_files target).
